@@ -7,7 +7,8 @@
     round in which every deal was accepted has every share on the sum of the broadcast vectors (C02);
   * every deviation of the broadcast vector from the one in the deal — any coefficient, the length — is
     refused (`any_coefficient_matters`, `length_matters`), and comparing only the constant term is NOT
-    enough (`constant_term_check_insufficient`: the explicit counterexample behind seeded change C11a);
+    enough (`constant_term_check_insufficient`: the explicit counterexample behind seeded change C11a), and neither is
+    checking the share against the broadcast vector (`share_check_insufficient`: seeded change C11c);
   * an error report of any participant cancels the round on the node that processes it, in every phase
     of key generation (C05.error_report_cancels), and a cancelled round never yields an operation, hence
     never a master-key step and never a stored share (`cancelled_never_asks_for_keys`).
@@ -56,6 +57,24 @@ theorem constant_term_check_insufficient (g : G) (hg : g ≠ 0) :
   refine ⟨[0, g], [0, 0], 1, 0, ⟨rfl, rfl, ?_⟩, ?_⟩
   · simp [C02.evalCommit]
   · simp [C02.evalCommit, hg]
+
+/-- the weakened check of seeded change C11c: same length, and the SHARE verifies against the broadcast commitments
+(nothing ties the commitments inside the deal to the broadcast ones except their value at the addressee's point) -/
+def ShareOnlyAccept (g : G) (broadcast inDeal : List G) (x share : F) : Prop :=
+  broadcast.length = inDeal.length ∧ C02.evalCommit broadcast x = share • g ∧ C02.evalCommit inDeal x = share • g
+
+/-- **share_check_insufficient.** Checking the share against the broadcast commitments (and the deal against itself)
+lets through a deal whose commitments are those of ANOTHER polynomial, one that agrees with the broadcast polynomial
+at the addressee's point only: broadcast `[g, 0]` (the constant `1`), deal `[0, g]` (the polynomial `x`), at `x = 1`
+with share `1`. The addressee would go on with commitments nobody else has. -/
+theorem share_check_insufficient (g : G) (hg : g ≠ 0) :
+    ∃ (broadcast inDeal : List G) (x share : F),
+      ShareOnlyAccept g broadcast inDeal x share ∧ broadcast ≠ inDeal ∧ ¬ AcceptDeal g broadcast inDeal x share := by
+  refine ⟨[g, 0], [0, g], 1, 1, ⟨rfl, ?_, ?_⟩, ?_, ?_⟩
+  · simp [C02.evalCommit]
+  · simp [C02.evalCommit]
+  · intro h; simp at h; exact hg h.1
+  · intro h; have := h.1; simp at this; exact hg this.1
 
 /-- the executable check used by the driver is the exponent-level instance of `AcceptDeal` -/
 theorem acceptDeal_iff [DecidableEq F] (broadcast inDeal : List F) (x share : F) :
